@@ -9,4 +9,5 @@ mkdir -p evidence replays target
 ( cd harness && cargo build --offline --profile verif -p vcheck --bin c29 --features vectors --target-dir "$VERIF_ROOT/target/vectors" ) 2>&1 | tail -1
 harness/pre/frontends.sh setup 2>&1 | tail -1
 harness/pre/c16.sh setup 2>&1 | tail -1
+harness/pre/c26.sh setup 2>&1 | tail -1
 exit 0
